@@ -5,6 +5,18 @@ ROOT = os.path.dirname(os.path.dirname(os.path.abspath(__file__)))
 props = [json.loads(l) for l in open(os.path.join(ROOT, "properties.jsonl"))]
 
 CHECKS = {
+ "C06": dict(engine="shapes", design="5 C06, 3.7",
+   technique="TLC enumeration of all fieldset patterns with the shape laws of Emit.tla (MC_Emit shapes) + comparison of the predicted abstract shape with the real emitted type definitions parsed back + rustc type-check of an external client that constructs/destructures every type exactly",
+   text="Emit!Shape maps every declaration pattern (struct|variant x named|tuple|empty x used/_ mask x terminal/nonterminal per field, <=3 fields: 338 patterns) to the abstract emitted item (unit/tuple/braced, field order, names, pub on struct fields named and tuple, Box exactly on nonterminals) and TLC checks the laws C06 states. Each pattern is generated for real, the user-visible region of the emitted text is parsed back into the same abstract syntax and compared; terminal enum and nonterminal types must be pub, in declaration order, variants in order, payload types as declared; the parse signature must be generic over IntoIterator<Item = Tok> returning Result<Start, Option<Tok>>. A client in another module constructs and destructures every emitted type without `..`, and calls parse through a fn pointer and three iterator types; rustc must accept it.",
+   note="Trusted: TLC; rustc; the line-based parser of the emitted type region (a line it cannot read is a tool error)."),
+ "C12": dict(engine="attrs", design="5 C12, 3.2, 3.7",
+   technique="TLC: declarative lexical rules decide for every attribute body of <=3/4 atoms whether `#[body]` is one attribute token (MC_Attrs over LexRef.tla) + placement law (Emit!AttrPlacementOK) + replay on the real generate with byte-for-byte comparison of the lines before each emitted type",
+   text="For all ~7 200 (quick) attribute texts built from 19 atoms (three bracket kinds, quotes, /, //, #, =, comma, 2-/3-/4-byte characters, NBSP, CR) LexRef says whether the text is exactly one OuterAttribute token or which lexical errors are admissible. Every single-attribute body is attached, made unique by a counter, to the struct, enum and terminal declaration of a small grammar (0-3 attributes each); in the real emitted text the lines immediately before pub struct/enum N must equal the declared attributes byte for byte in order and each must occur exactly once in the whole output. Other bodies must produce an admissible lexical error or the predicted number of tokens.",
+   note="Trusted: TLC; the parser of the emitted type region."),
+ "C13": dict(engine="paytypes", design="5 C13, 3.7",
+   technique="TLC enumeration of payload type ASTs with TypeTokens (injective, MC_Emit types) + re-tokenisation of the emitted spelling at all six use sites of every terminal compared with the prediction + TLC-judged deeper random types (TypeJudge) + rustc type identity for a resolvable family",
+   text="Every type of depth <=1 over 12 paths (2 197 types) is declared with seeded random layout and comments inside the type as the payload of a terminal used in a named struct field, a tuple struct field and an enum variant field; in the real emitted module the type is located at the terminal enum variant, the three fields, the Node enum variant and the try_into_* return type, re-tokenised and compared token for token with Emit!TypeTokens. Random types up to depth 5 are judged by TLC. For types whose paths resolve, a client asserts with rustc that each field has exactly the declared Rust type.",
+   note="Trusted: TLC; rustc; structural location of the use sites (FormatDrift = tool error)."),
  "C10": dict(engine="validate", design="5 C10, 3.6, Appendix D",
    technique="TLC model checking of Validate.tla (operational check order sound w.r.t. declarative Truthful/HasViolation on all files within 2-3 edits of base files) + TLC-judged outcome of the real generate on every explored file and on seeded random larger files (ValidateJudge)",
    text="Validate.tla defines, per KikiErr validation variant, when a report is truthful for an abstract file (identifier occurrences are sites standing for byte positions; nonterminal and terminal references resolve in separate namespaces) and when a file has any violation. MC_Validate explores every file within 2 edits (rename an occurrence, toggle $, duplicate/delete item/variant/field, add start; ~23 000 files, depth 3 in the thorough tier) and shows the implementation-ordered checks are sound. Every explored file and 3 000-60 000 random larger ones are rendered to text, run through the real generate, positions mapped back to sites, and judged by TLC: Ok/TableConflict => no violation; error => truthful (any violation present may be reported).",
